@@ -82,16 +82,17 @@ def n_boundaries(program: tuple) -> int:
     return 2 + len(program) + sum(1 for _, _, t in program if t[0] == 'wait')
 
 
-def check_case(program: tuple, resumes: tuple, restore_at: tuple, medium: str) -> List[dict]:
+def check_case(program: tuple, resumes: tuple, restore_at: tuple, medium: str, exit_restore_at: tuple = ()) -> List[dict]:
     cls = programs.make_class(program)
-    world = ckpt.CkptWorld(restore_at, resumes, medium)
+    world = ckpt.CkptWorld(restore_at, resumes, medium, exit_restore_at=exit_restore_at)
     violations: List[dict] = []
 
     def violate(clause: str, feats: dict, detail: Any = None) -> None:
         violations.append({'clause': clause, 'features': feats, 'detail': detail,
-                           'case': {'program': program, 'resumes': resumes, 'restore_at': restore_at, 'medium': medium}})
+                           'case': {'program': program, 'resumes': resumes, 'restore_at': restore_at, 'medium': medium,
+                                    'exit_restore_at': exit_restore_at}})
 
-    restored = bool(restore_at)
+    restored = bool(restore_at) or bool(exit_restore_at)
     try:
         try:
             proc = world.run(cls)
@@ -99,6 +100,11 @@ def check_case(program: tuple, resumes: tuple, restore_at: tuple, medium: str) -
             violate('run-raised', {'exc': type(exc).__name__, 'restored': restored}, repr(exc))
             return violations
         want = model(program, resumes)
+        for k in sorted(exit_restore_at, reverse=True):
+            # the k-th RUNNING state is run() for k == 1 and step k-2 afterwards; a checkpoint taken when it is being left
+            # still holds that state, so the step runs once more (with the same arguments) after the restore
+            if k >= 2 and k - 2 < len(want['trace']):
+                want['trace'].insert(k - 2, want['trace'][k - 2])
         got = [(t[0], t[1], t[2]) for t in world.trace if t[3] == 'enter']
         if world.errors:
             violate('stuck', {'restored': restored}, world.errors)
@@ -127,7 +133,7 @@ def check_case(program: tuple, resumes: tuple, restore_at: tuple, medium: str) -
     return violations
 
 
-def cases(tier: str) -> Iterator[Tuple[tuple, tuple, tuple, str]]:
+def cases(tier: str) -> Iterator[Tuple[tuple, tuple, tuple, str, tuple]]:
     max_subset = 2 if tier == 'quick' else 99
     media = ('pickle',) if tier == 'quick' else ('pickle', 'deepcopy', 'yaml')
     for program, resumes in chains(3):
@@ -137,15 +143,18 @@ def cases(tier: str) -> Iterator[Tuple[tuple, tuple, tuple, str]]:
                 for subset in itertools.combinations(range(nb), size):
                     if size == 0 and medium != media[0]:
                         continue
-                    yield program, resumes, subset, medium
+                    yield program, resumes, subset, medium, ()
+        # one checkpoint taken in the exit hook of each RUNNING state
+        for k in range(1, len(program) + 2):
+            yield program, resumes, (), media[0], (k,)
 
 
-def _work(chunk: List[Tuple[tuple, tuple, tuple, str]]) -> Dict[str, Any]:
+def _work(chunk: List[Tuple[tuple, tuple, tuple, str, tuple]]) -> Dict[str, Any]:
     out: Dict[str, Any] = {'n': 0, 'violations': [], 'nontrivial': 0, 'outcomes': set(), 'restores': 0}
     for case in chunk:
         out['n'] += 1
-        vs = explore.guarded_case({'program': case[0], 'resumes': case[1], 'restore_at': case[2], 'medium': case[3]}, check_case, *case)
-        if case[2]:
+        vs = explore.guarded_case({'program': case[0], 'resumes': case[1], 'restore_at': case[2], 'medium': case[3], 'exit_restore_at': case[4]}, check_case, *case)
+        if case[2] or case[4]:
             out['nontrivial'] += 1
             out['restores'] += len(case[2])
         out['outcomes'].add(digest((case[0], case[1])))
@@ -187,7 +196,7 @@ def run_check(tier: str, seed: int, workers: Any) -> Dict[str, Any]:
                 'size <=2 through pickle; thorough: all subsets through pickle, deepcopy, yaml); non-trivial = at least '
                 'one restore; states = distinct (chain, resume script) pairs; transitions = executions + restores',
         'samples': [{'program': programs.describe(sample[0]), 'resumes': repr(sample[1]), 'restore_at': list(sample[2]),
-                     'medium': sample[3]}],
+                     'medium': sample[3], 'exit_restore_at': list(sample[4])}],
         'exhaustive': True, 'chains': len(total['outcomes']),
     }
     return {'violations': violations, 'coverage': coverage, 'errors': [], 'level': 'model_checking',
@@ -199,4 +208,5 @@ def run_check(tier: str, seed: int, workers: Any) -> Dict[str, Any]:
 def replay(doc: Dict[str, Any]) -> List[dict]:
     from ..cli import to_tuple
     case = doc['case']
-    return check_case(to_tuple(case['program']), to_tuple(case['resumes']), to_tuple(case['restore_at']), case['medium'])
+    return check_case(to_tuple(case['program']), to_tuple(case['resumes']), to_tuple(case['restore_at']), case['medium'],
+                      to_tuple(case.get('exit_restore_at') or ()))
